@@ -1,0 +1,120 @@
+//go:build verif
+
+package listener
+
+// Transport adapter contracts (property C17): what the MQTT decoder reads is what the client sent, what the client
+// receives is what the broker wrote - in order, once each. Sequential contracts over the ghost call trace: the
+// socket, the protocol source and bytes.Buffer are outside the verified code and their calls are recorded.
+// Interleavings with the flush timer are C10's subject (not applicable).
+
+import (
+	"bytes"
+
+	vs "github.com/emitter-io/emitter/internal/verifspec"
+)
+
+func pre_Conn(m *Conn) bool { return m != nil && m.socket != nil && m.limit != nil }
+
+// ---- write side: bytes reach the socket in the order they were written
+
+// Write(p) takes exactly one of three routes, and p is never reordered with earlier bytes:
+//  (a) rate-limited: p is appended to the queue and nothing is sent;
+//  (b) the queue is not empty: p is appended to the queue FIRST and then the whole queue is flushed;
+//  (c) only when the queue is empty does p go to the socket directly.
+//@ verify (*Conn).Write pre=pre_Conn post=post_Conn_Write props=C17
+func post_Conn_Write(m *Conn, p []byte) bool {
+	lim := vs.TraceFind("Limiter).Limit")
+	app, sock := vs.TraceFind("Buffer).Write"), vs.TraceFind("Conn).Write")
+	if lim < 0 {
+		return false
+	}
+	if vs.TraceRet[bool](lim, 0) { // (a)
+		return app >= 0 && vs.TraceCount("Buffer).Write") == 1 && vs.SameBytes(vs.TraceArg[[]byte](app, 1), p) && sock < 0
+	}
+	ln := vs.TraceFind("Buffer).Len")
+	if ln < 0 {
+		return false
+	}
+	if vs.TraceRet[int](ln, 0) > 0 { // (b) queue first, then flush what the queue holds
+		return app >= 0 && vs.TraceCount("Buffer).Write") == 1 && vs.SameBytes(vs.TraceArg[[]byte](app, 1), p) && (sock < 0 || app < sock)
+	}
+	// (c) direct
+	return app < 0 && sock >= 0 && vs.TraceCount("Conn).Write") == 1 && vs.SameBytes(vs.TraceArg[[]byte](sock, 1), p)
+}
+
+// Flush sends exactly what the queue holds, once, and empties the queue
+//@ verify (*Conn).Flush pre=pre_Conn post=post_Conn_Flush props=C17
+func post_Conn_Flush(m *Conn, res0 int, res1 error) bool {
+	ln := vs.TraceFindNth("Buffer).Len", 0)
+	if ln < 0 {
+		return false
+	}
+	if vs.TraceRet[int](ln, 0) == 0 {
+		return vs.TraceCount("Conn).Write") == 0 && vs.TraceCount("Buffer).Reset") == 0 && res0 == 0 && res1 == nil
+	}
+	b, w, r := vs.TraceFind("Buffer).Bytes"), vs.TraceFind("Conn).Write"), vs.TraceFind("Buffer).Reset")
+	return b >= 0 && w >= 0 && r >= 0 && b < w && w < r && vs.TraceCount("Conn).Write") == 1 && vs.TraceCount("Buffer).Reset") == 1 &&
+		vs.SameBytes(vs.TraceArg[[]byte](w, 1), vs.TraceRet[[]byte](b, 0)) && res0 == vs.TraceRet[int](w, 0) && res1 == vs.TraceRet[error](w, 1)
+}
+
+// ---- read side: the sniffer replays what the protocol matchers peeked at, then continues with the source
+
+// specBufLen: the number of bytes a bytes.Buffer currently holds (uninterpreted; bytes.Buffer is outside the
+// verified code). The sniffer's representation invariant: the replay window lies inside the buffer.
+//@ opaque specBufLen
+func specBufLen(b *bytes.Buffer) int { return b.Len() }
+
+//@ assume (*bytes.Buffer).Bytes iface post=post_Buffer_Bytes
+func post_Buffer_Bytes(b *bytes.Buffer, res0 []byte) bool { return len(res0) == specBufLen(b) }
+
+// io.Reader's contract: 0 <= n <= len(p)
+//@ assume (io.Reader).Read iface post=post_Reader_Read
+func post_Reader_Read(p []byte, res0 int) bool { return 0 <= res0 && res0 <= len(p) }
+
+func pre_sniffer(s *sniffer) bool {
+	return s != nil && s.source != nil && 0 <= s.bufferRead && s.bufferRead <= s.bufferSize && s.bufferSize <= specBufLen(&s.buffer)
+}
+
+// Read either serves the next bytes of the replay window (and advances it by exactly what it returned) without
+// touching the source, or - the window exhausted - reads from the source once and, while sniffing, appends exactly
+// the bytes it returned to the buffer, once.
+//@ verify (*sniffer).Read pre=pre_sniffer post=post_sniffer_Read_replay,post_sniffer_Read_bytes,post_sniffer_Read_source props=C17
+func post_sniffer_Read_replay(s *sniffer, p []byte, old_s sniffer, res0 int) bool {
+	if old_s.bufferSize <= old_s.bufferRead {
+		return true
+	}
+	return vs.TraceFind("Buffer).Bytes") >= 0 && vs.TraceCount(".Read") == 0 && vs.TraceCount("Buffer).Write") == 0 &&
+		s.bufferRead == old_s.bufferRead+res0 && s.bufferSize == old_s.bufferSize && 0 <= res0 && res0 <= len(p)
+}
+func post_sniffer_Read_bytes(s *sniffer, p []byte, old_s sniffer, res0 int) bool {
+	if old_s.bufferSize <= old_s.bufferRead {
+		return true
+	}
+	all := vs.TraceRet[[]byte](vs.TraceFind("Buffer).Bytes"), 0)
+	return len(all) < old_s.bufferSize || !vs.Disjoint(p, all) || // (the caller's p is not the sniffer's own buffer)
+		vs.Forall(0, res0, func(i int) bool { return p[i] == all[old_s.bufferRead+i] })
+}
+func post_sniffer_Read_source(s *sniffer, p []byte, old_s sniffer, res0 int, res1 error) bool {
+	if old_s.bufferSize > old_s.bufferRead {
+		return true
+	}
+	r := vs.TraceFind("Reader).Read")
+	if r < 0 || vs.TraceCount("Reader).Read") != 1 {
+		return false
+	}
+	sn := vs.TraceRet[int](r, 0)
+	w := vs.TraceFind("Buffer).Write")
+	if sn > 0 && old_s.sniffing {
+		// appended exactly once, exactly the bytes handed to the caller
+		return w >= 0 && vs.TraceCount("Buffer).Write") == 1 && r < w && len(vs.TraceArg[[]byte](w, 1)) == sn
+	}
+	return w < 0 && res0 == sn && res1 == vs.TraceRet[error](r, 1) && s.bufferRead == old_s.bufferRead && s.bufferSize == old_s.bufferSize
+}
+
+// reset rewinds to the start of everything sniffed so far
+//@ verify (*sniffer).reset pre=pre_sniffer_reset post=post_sniffer_reset props=C17
+func pre_sniffer_reset(s *sniffer) bool { return s != nil }
+func post_sniffer_reset(s *sniffer, snif bool) bool {
+	l := vs.TraceFind("Buffer).Len")
+	return l >= 0 && s.sniffing == snif && s.bufferRead == 0 && s.bufferSize == vs.TraceRet[int](l, 0)
+}
